@@ -6,5 +6,5 @@ open UtilModel
 
 def main (args : List String) : IO UInt32 :=
   driverMain [
-    mkEntry "linkedlist" LinkedList.model LinkedList.parseObs [MonEntry.ofMonitor "C12" LinkedList.monC12]
+    mkEntry "linkedlist" LinkedList.model LinkedList.parseObs [MonEntry.ofMonitor "C12" LinkedList.monC12] (cap := 2000)
   ] args
